@@ -428,6 +428,17 @@ def run_case(case, R):
     elif k == "magnitudes":
         # float coefficients of very different magnitude: products of an element that sits out a step must not leak into it
         names = ("q0",)
+        # quotients far below 1 (large constant divisors, large leading coefficients): nothing is "converged" at 1e-3
+        for dv in (4096, 1e5, -65536):   # quotient terms stay far above the documented cutoff of 1e-30
+            for t in ([((1,), 1), ((0,), 3)], [((2,), 1), ((1,), 1), ((0,), 1)], [((3,), 0.5)]):
+                spa = space.scalar_spec(names, [(e_, float(c_)) for e_, c_ in t], "f8")
+                spb = space.scalar_spec(names, [((0,), float(dv))], "f8")
+                judge_divmod(R, f"small quotient {t} / {dv}", build_checked(spa), build_checked(spb), model_of(spa), model_of(spb), ["magnitudes", "small_quotient"], None)
+                spc = space.scalar_spec(names, [((1,), float(dv)), ((0,), 1.0)], "f8")
+                judge_divmod(R, f"small quotient {t} / ({dv}*q0+1)", build_checked(spa), build_checked(spc), model_of(spa), model_of(spc), ["magnitudes", "small_quotient"], None)
+                spd = space.array_spec(names, (2,), [[((0,), float(dv))], [((1,), float(dv)), ((0,), 2.0)]], "f8")
+                spe = space.array_spec(names, (2,), [[(e_, float(c_)) for e_, c_ in t]] * 2, "f8")
+                judge_divmod(R, f"small quotient array {t} / [{dv}, {dv}*q0+2]", build_checked(spe), build_checked(spd), model_of(spe), model_of(spd), ["magnitudes", "small_quotient"], None)
         for big in (1e200, 1e-200, 1e300):
             for da, db in itertools.product(([3, 3], [3, 1], [2, 0], [1, 3]), ([1, 2], [2, 1], [0, 2], [1, 1])):
                 spa = space.array_spec(names, (2,), [[((da[0],), big)], [((da[1],), big), ((0,), 1.0)]], "f8")
